@@ -555,7 +555,9 @@ func judgeVar(id string, c *acase, res h.Result, recs [][]string) []viol {
 	if len(recs) == 0 && res.Crashed() {
 		return []viol{{id + " | " + fam + " | task crashed (Go panic)", fmt.Sprintf("value %q: exit %d, stderr %s", c.Value, res.Exit, clean(res.Stderr, 300))}}
 	}
-	if c.Way == "clivar" && c.Decl != "" && len(recs) == 2 && len(recs[0]) == 3 {
+	// (a value that is itself a template, e.g. X='{{.X}}', legitimately renders to what the Taskfile declares once the
+	// template engine has got hold of it: that is the known template-interpretation finding, classified below)
+	if c.Way == "clivar" && c.Decl != "" && len(recs) == 2 && len(recs[0]) == 3 && !tmpl {
 		for _, d := range []string{declLit, declTmpl, declEnv} {
 			if recs[0][1] == d && c.Value != d {
 				dv := c.Dotenv
